@@ -124,6 +124,8 @@ class EnsembleSampler(MarkovChain):
         theta = (
             positions.reshape([positions.size, 1]) if positions.ndim == 1 else positions
         )
+        # walkers are updated in place: an integer array would silently truncate every move
+        theta = theta.astype(float)
 
         if theta.ndim != 2 or theta.shape[0] < (theta.shape[1] + 1):
             raise ValueError(
